@@ -20,11 +20,15 @@ def run_edges(ctx, want_trace=True):
     ctx.build_worker()
     out = {"summaries": [], "fails": [], "tlc": [], "trace_records": 0, "trace_ok": 0}
     runs = []
+    base = {"SeqMode": "FALSE"}
     if quick:
-        runs.append(("slice", {"MaxObjs": 2, "MaxDepth": 1, "Slice": ctx.seed % NSLICES, "NSlices": NSLICES}, None))
+        runs.append(("slice", dict(base, MaxObjs=2, MaxDepth=1, Slice=ctx.seed % NSLICES, NSlices=NSLICES), None))
+        # pairs "copying transformation, then any transformation", whole chain replayed in one Passes.Process
+        runs.append(("pairs", {"SeqMode": "TRUE", "MaxObjs": 1, "MaxDepth": 2, "Slice": ctx.seed % 4, "NSlices": 4}, None))
     else:
-        runs.append(("all", {"MaxObjs": 2, "MaxDepth": 1, "Slice": 0, "NSlices": 1}, None))
-        runs.append(("sequences", {"MaxObjs": 2, "MaxDepth": 3, "Slice": 0, "NSlices": 1}, "num=400"))
+        runs.append(("all", dict(base, MaxObjs=2, MaxDepth=1, Slice=0, NSlices=1), None))
+        runs.append(("pairs", {"SeqMode": "TRUE", "MaxObjs": 1, "MaxDepth": 2, "Slice": 0, "NSlices": 1}, None))
+        runs.append(("sequences", dict(base, MaxObjs=2, MaxDepth=3, Slice=0, NSlices=1), "num=400"))
     for name, consts, sim in runs:
         r = ctx.run_tlc("TransformsMC", "TransformsMC.cfg", workers=16, timeout=2400, constants=consts,
                         simulate=sim, depth=4 if sim else None)
